@@ -36,6 +36,8 @@ def run_impl(c):
     k = c["k"]
     if k == "test":
         a, e = _mk(c["a"]), _mk(c["e"])
+        if c.get("same"):
+            e = a       # a waveform tested against itself (the descriptions are equal): windows may still start apart
         kw = {}
         for name in ("start_sample", "expected_start_sample", "sample_count"):
             if name in c:
@@ -161,9 +163,12 @@ def gen_cases(rng, tier):
             if rng.random() < 0.5 and e["buf"] and e["ncol"]:
                 e["buf"][rng.randrange(len(e["buf"]))][rng.randrange(e["ncol"])] = rng.choice(states)
         c = {"k": "test", "a": a, "e": e}
+        if twin and rng.random() < 0.5:
+            c["e"] = _copy.deepcopy(a)
+            c["same"] = True
         for name, lim in (("start_sample", a["cnt"]), ("expected_start_sample", e["cnt"]), ("sample_count", min(a["cnt"], e["cnt"]))):
             m = rng.random()
-            if twin and name == "expected_start_sample" and "start_sample" in c and rng.random() < 0.8:
+            if twin and not c.get("same") and name == "expected_start_sample" and "start_sample" in c and rng.random() < 0.8:
                 c[name] = c["start_sample"]
                 continue
             if m < 0.35:
